@@ -36,6 +36,8 @@ pub enum Step {
     Error,
     Panic,
     Stall,
+    /// the same batch forever (an unbounded, always-ready input)
+    Endless(Vec<Row>),
 }
 
 pub fn rows_to_batch(rows: &[Row]) -> RecordBatch {
@@ -89,6 +91,20 @@ pub fn parse_script(v: &Value, part: usize) -> Option<Vec<Step>> {
                 "stall" => Step::Stall,
                 _ => return None,
             });
+        } else if let Some(b) = st.get("endless") {
+            let mut rows = vec![];
+            for r in b.as_array()? {
+                let r = r.as_array()?;
+                if r.len() != 3 {
+                    return None;
+                }
+                rows.push(Row { id: part as i64 * 100_000 + next, k: r[0].as_i64().map(|x| x as i32), s: r[1].as_str().map(|x| x.to_string()), v: r[2].as_i64() });
+                next += 1;
+            }
+            if rows.is_empty() || rows.len() > 64 {
+                return None;
+            }
+            out.push(Step::Endless(rows));
         } else if let Some(d) = st.get("d") {
             out.push(Step::Delay(d.as_u64()?.min(100_000)));
         } else if let Some(b) = st.get("b") {
